@@ -233,6 +233,15 @@ Proof.
     try (destruct (N.eq_dec i w) as [->|Hn]; [congruence | mapN; exact G]).
 Qed.
 
+(* so does a failed writer's *)
+Lemma step_failed : forall s e s' i wr,
+  step s e = Some s' -> getN i (s_w s) = Some wr -> w_pc wr = PFailed -> getN i (s_w s') = Some wr.
+Proof.
+  intros s e s' i wr H G P.
+  destruct e; cbn in H; repeat dmatch H; inversion H; subst; clear H; cbn; try exact G;
+    try (destruct (N.eq_dec i w) as [->|Hn]; [congruence | mapN; exact G]).
+Qed.
+
 Lemma rok_step : forall s e s' rr, step s e = Some s' -> rok s rr -> rok s' rr.
 Proof.
   intros s e s' rr H R. unfold rok in *. destruct (r_ino rr) as [i|]; [|exact R].
@@ -1012,6 +1021,14 @@ Proof.
     split; [reflexivity|]. constructor; [|constructor]. cbn. exists b. split; [exact Gw|reflexivity].
 Qed.
 
+Lemma macro_fault_ok : forall s w,
+  forallb safe (fst (macro_fault s w)) = true /\ Forall declared (fst (macro_fault s w)).
+Proof.
+  intros s w. unfold macro_fault.
+  destruct (getN w (s_w s)) as [wr|]; [|split; [reflexivity|constructor]].
+  destruct (w_pc wr); cbn; split; try reflexivity; repeat constructor.
+Qed.
+
 Lemma read_events_ok : forall r u s,
   forallb safe (read_events sha r u s) = true /\ Forall declared (read_events sha r u s).
 Proof.
@@ -1090,7 +1107,7 @@ Lemma reads_model_ok : forall sched s ps rs sf, good s -> mgo i s sched = Some (
 Proof.
   induction sched as [|e sched IH]; intros s ps rs sf G H; cbn in H.
   - inversion H; subst. split; [reflexivity|exact G].
-  - destruct e as [w|r u|w|w ok|r u|r]; try exact (IH _ _ _ _ G H).
+  - destruct e as [w|r u|w|w|w ok|r u|r]; try exact (IH _ _ _ _ G H).
     + destruct (exec sha s (fst (macro i s w))) as [s1|] eqn:E; [|discriminate].
       destruct (mgo i s1 sched) as [[[ps1 rs1] sf1]|] eqn:M; [|discriminate].
       inversion H; subst; clear H.
@@ -1107,6 +1124,11 @@ Proof.
       * exact (get_in N.eqb Neqb_spec _ _ _ Gw).
       * cbn [fst]. destruct (decl_wkey _ _ _ Gw) as [Wk Wb]. rewrite Wk, Wb. unfold ukey. rewrite K.
         rewrite !String.eqb_refl. reflexivity.
+    + destruct (exec sha s (fst (macro_fault s w))) as [s1|] eqn:E; [|discriminate].
+      destruct (mgo i s1 sched) as [[[ps1 rs1] sf1]|] eqn:M; [|discriminate].
+      inversion H; subst; clear H.
+      destruct (macro_fault_ok s w) as [Sf Dc].
+      exact (IH _ _ _ _ (exec_good _ _ _ G Sf Dc E) M).
 Qed.
 
 (* ---------- the freshness monitor runs in lockstep with the model ---------- *)
@@ -1120,9 +1142,20 @@ Qed.
 Lemma memN_false : forall x l, ~ In x l -> memN x l = false.
 Proof. intros x l H. destruct (memN x l) eqn:E; [|reflexivity]. apply memN_In in E. contradiction. Qed.
 
+(* writer x is finished: it has renamed, or it has failed and cleaned up *)
+Definition fin_at (s : state) (x : N) : Prop :=
+  exists wr, getN x (s_w s) = Some wr /\ (w_pc wr = PDone \/ w_pc wr = PFailed).
+
+Lemma step_fin : forall s e s' x, step sha s e = Some s' -> fin_at s x -> fin_at s' x.
+Proof.
+  intros s e s' x H [wr [G [P|P]]]; exists wr.
+  - split; [|left; exact P]. exact (proj1 (step_done sha _ _ _ _ _ H (conj G P))).
+  - split; [|right; exact P]. exact (step_failed sha _ _ _ _ _ H G P).
+Qed.
+
 Record phi (M : mon) (s : state) : Prop := mk_phi {
   p_started : forall w wr, getN w (s_w s) = Some wr -> In w (n_started M);
-  p_ret : forall x, In x (n_ret M) -> exists wr, done_at s x wr;
+  p_ret : forall x, In x (n_ret M) -> fin_at s x;
   p_before : forall w l, getN w (n_before M) = Some l -> forall x, In x l -> In x (n_ret M);
   p_stale : forall x, In x (n_stale M) -> In x (n_ret M);
   p_holder : forall k L, getS k (s_dir s) = Some L -> is_temp k = false -> ~ In L (n_stale M);
@@ -1165,7 +1198,7 @@ Proof.
   - intros w wr G. destruct (step_w_origin sha _ _ _ _ _ H S G) as [[wr0 G0]|[t Ee]].
     + exact (P1 _ _ G0).
     + subst e. exact CS.
-  - intros x Hx. destruct (P2 _ Hx) as [wr Dn]. exists wr. exact (step_done sha _ _ _ _ _ H Dn).
+  - intros x Hx. exact (step_fin _ _ _ _ H (P2 _ Hx)).
   - exact P3.
   - exact P4.
   - intros k L G T. rewrite (step_dir_nontemp _ _ _ _ I S NR H T) in G. exact (P5 _ _ G T).
@@ -1220,15 +1253,16 @@ Proof.
   destruct (D _ _ Gw) as [b [Gi C]]. destruct (decl_wkey _ _ _ Gi) as [Wk _].
   (* w has not returned yet *)
   assert (~ In w (n_ret M)) as NotRet.
-  { intros Hx. destruct (P2 _ Hx) as [wr' [G' P']]. assert (wr' = wr) by congruence. subst wr'. congruence. }
+  { intros Hx. destruct (P2 _ Hx) as [wr' [G' P']]. assert (wr' = wr) by congruence. subst wr'.
+    destruct P' as [P'|P']; congruence. }
   assert (forall x, In x (match getN w (n_before M) with Some l => l | None => [] end) -> In x (n_ret M)) as Bef.
   { intros x Hx. destruct (getN w (n_before M)) as [l|] eqn:Gb; [exact (P3 _ _ Gb _ Hx)|destruct Hx]. }
   split; cbn.
   - intros w' wr' G'. destruct (step_w_origin sha _ (ERename w) _ _ _ H0 eq_refl G') as [[wr0 G0]|[t Ee]]; [|discriminate].
     exact (P1 _ _ G0).
   - intros x [<-|Hx].
-    + exists (with_pc wr PDone). split; [cbn; mapN; reflexivity|reflexivity].
-    + destruct (P2 _ Hx) as [wr' Dn]. exists wr'. exact (step_done sha _ _ _ _ _ H0 Dn).
+    + exists (with_pc wr PDone). split; [cbn; mapN; reflexivity|left; reflexivity].
+    + exact (step_fin _ _ _ _ H0 (P2 _ Hx)).
   - intros w' l Gb x Hx. right. exact (P3 _ _ Gb _ Hx).
   - intros x Hx. apply in_app_or in Hx. destruct Hx as [Hx|Hx].
     + apply filter_In in Hx. right. exact (Bef _ (proj1 Hx)).
@@ -1298,6 +1332,43 @@ Proof.
     + cbn [fst snd] in *. cbn in H. inversion H; subst s'. exists M1. split; [reflexivity|exact P1].
 Qed.
 
+(* the error return of a writer whose rename failed *)
+Lemma phi_fail : forall M s w s', phi M s -> good s -> step sha s (EFail w) = Some s' ->
+  phi (mk_mon (n_started M) (w :: n_ret M) (n_before M) (n_stale M) (n_hit M) (n_open M)) s'.
+Proof.
+  intros M s w s' P G H.
+  assert (phi M s') as [P1 P2 P3 P4 P5 P6].
+  { apply (phi_step_other M s (EFail w) s'); cbn; auto. }
+  split; cbn; try assumption.
+  - intros x [<-|Hx]; [|exact (P2 _ Hx)].
+    cbn in H. destruct (getN w (s_w s)) as [wr|] eqn:Gw; [|discriminate].
+    exists (with_pc wr PFailed). split; [|right; reflexivity].
+    destruct (w_pc wr); try discriminate; destruct (w_inplace wr); try discriminate;
+      inversion H; subst s'; cbn; mapN; reflexivity.
+  - intros w' l Gb x Hx. right. exact (P3 _ _ Gb _ Hx).
+  - intros x Hx. right. exact (P4 _ Hx).
+Qed.
+
+Lemma sf_phi : forall M s w s' reads, phi M s -> good s ->
+  exec sha s (fst (macro_fault s w)) = Some s' ->
+  exists M2, sw_mon reads M w (snd (macro_fault s w)) = (M2, true) /\ phi M2 s'.
+Proof.
+  intros M s w s' reads P G H. unfold sw_mon.
+  assert (exists M1, (if memN w (n_started M) then (M, true) else mon_step i reads (M, true) (AStart w)) = (M1, true)
+                     /\ phi M1 s) as [M1 [-> P1]].
+  { destruct (memN w (n_started M)) eqn:E.
+    - exists M. split; [reflexivity|exact P].
+    - eexists. split; [cbn; reflexivity|apply phi_start; exact P]. }
+  unfold macro_fault in *.
+  destruct (getN w (s_w s)) as [wr|] eqn:Gw.
+  - destruct (w_pc wr) eqn:Pc; cbn [fst snd] in *;
+      try (cbn in H; inversion H; subst s'; exists M1; split; [reflexivity|exact P1]).
+    cbn [exec] in H. destruct (step sha s (EFail w)) as [s1|] eqn:E; [|discriminate].
+    inversion H; subst s1; clear H.
+    eexists. split; [cbn; reflexivity|]. exact (phi_fail _ _ _ _ P1 G E).
+  - cbn [fst snd] in *. cbn in H. inversion H; subst s'. exists M1. split; [reflexivity|exact P1].
+Qed.
+
 Lemma find_read_app : forall r u res pre rest,
   (forall x, In x pre -> fst (fst x) <> r) ->
   find_read r (pre ++ (r, u, res) :: rest) = Some res.
@@ -1346,7 +1417,7 @@ Proof.
 Qed.
 
 Definition hook_sched (sched : list sev) : bool :=
-  forallb (fun e => match e with SW _ | SR _ _ => true | _ => false end) sched.
+  forallb (fun e => match e with SW _ | SR _ _ | SF _ => true | _ => false end) sched.
 
 Lemma readers_persist : forall tr s s' (pre : list readrec), exec sha s tr = Some s' ->
   (forall x, In x pre -> getN (fst (fst x)) (s_r s) <> None) ->
@@ -1365,7 +1436,7 @@ Proof.
   induction sched as [|e sched IH]; intros s ps rs sf M pre Hs H G P Pre; cbn in H.
   - reflexivity.
   - cbn in Hs. apply andb_true_iff in Hs. destruct Hs as [He Hs].
-    destruct e as [w|r u|w|w ok|r u|r]; try discriminate.
+    destruct e as [w|r u|w|w|w ok|r u|r]; try discriminate.
     + destruct (exec sha s (fst (macro i s w))) as [s1|] eqn:E; [|discriminate].
       destruct (mgo i s1 sched) as [[[ps1 rs1] sf1]|] eqn:Mg; [|discriminate].
       inversion H; subst; clear H.
@@ -1386,6 +1457,14 @@ Proof.
       intros x Hx. apply in_app_or in Hx. destruct Hx as [Hx|[<-|[]]].
       * exact (readers_persist _ _ _ _ E Pre x Hx).
       * cbn [fst]. destruct (read_result _ _ _ _ G E) as [_ [Ex _]]. exact Ex.
+    + destruct (exec sha s (fst (macro_fault s w))) as [s1|] eqn:E; [|discriminate].
+      destruct (mgo i s1 sched) as [[[ps1 rs1] sf1]|] eqn:Mg; [|discriminate].
+      inversion H; subst; clear H.
+      destruct (macro_fault_ok s w) as [Sf Dc].
+      destruct (sf_phi M s w s1 (pre ++ rs) P G E) as [M2 [EM P2]].
+      cbn [fresh_go hd tl fst]. unfold sw_mon in EM. rewrite EM.
+      apply (IH s1 ps1 rs sf M2 pre Hs Mg (exec_good _ _ _ G Sf Dc E) P2).
+      exact (readers_persist _ _ _ _ E Pre).
 Qed.
 
 Theorem model_spec_ok : wf i = true -> spec_ok i (model i) = true.
